@@ -135,6 +135,10 @@ func (rpcsim) Generate(rng *Rand, prop, tier string) *Script {
 		// a long-lived connection: the 32-bit sequence number wraps during this run
 		s.Cfg["seqback"] = int64(rng.Range(1, 40))
 	}
+	if rng.Bool(50) {
+		// receivers dawdle (a few simulated nanoseconds after a channel receive) while the sender goes on
+		s.Cfg["seljit"] = int64(rng.Range(1, 5))
+	}
 	nops := rng.Range(4, 60)
 	outstanding := 0
 	maxOut := rng.Range(1, 16)
@@ -368,6 +372,7 @@ func (rr *rpcRun) run() {
 	s := rr.s
 	w := simrt.NewWorld(s.Seed, synctest.Wait)
 	w.StrictLocks = os.Getenv("VERIF_LOOSE_LOCKS") == ""
+	w.SelectJitter = int(s.Cfg["seljit"])
 	defer w.Close()
 	rr.w = w
 	w.TraceOn = os.Getenv("VERIF_TRACE") != ""
